@@ -77,17 +77,21 @@ def b_dofdist(B, cfg, cplx):
 
 
 def b_padder(B, cfg, cplx):
-    dom = ift.DomainTuple.make((U(2), RG(cfg["n"], 0.5))) if cfg["prod"] else ift.DomainTuple.make(RG(cfg["n"], 0.5))
+    shape = cfg["n"] if isinstance(cfg["n"], (list, tuple)) else (cfg["n"],)
+    newshape = cfg["new"] if isinstance(cfg["new"], (list, tuple)) else (cfg["new"],)
+    shape, newshape = tuple(shape), tuple(newshape)
+    rg = RG(shape if len(shape) > 1 else shape[0], 0.5)
+    dom = ift.DomainTuple.make((U(2), rg)) if cfg["prod"] else ift.DomainTuple.make(rg)
     space = 1 if cfg["prod"] else 0
-    op = ift.FieldZeroPadder(dom, (cfg["new"],), space=space, central=cfg["central"])
-    n, new = cfg["n"], cfg["new"]
+    op = ift.FieldZeroPadder(dom, newshape, space=space, central=cfg["central"])
+    first_axis = 1 if cfg["prod"] else 0
 
-    def ref(x):
+    def pad1(x, axis, n, new):
         shp = list(x.shape)
-        shp[space] = new
+        shp[axis] = new
         out = np.zeros(shp, dtype=x.dtype)
-        xs = np.moveaxis(x, space, 0)
-        os_ = np.moveaxis(out, space, 0)
+        xs = np.moveaxis(x, axis, 0)
+        os_ = np.moveaxis(out, axis, 0)
         if not cfg["central"]:
             for i in range(n):
                 os_[i] = xs[i]
@@ -101,6 +105,12 @@ def b_padder(B, cfg, cplx):
             for i in range(1, ny + 1):
                 os_[new - i] = xs[n - i]
         return out
+
+    def ref(x):
+        for k, (n, new) in enumerate(zip(shape, newshape)):
+            if n != new:
+                x = pad1(x, first_axis + k, n, new)
+        return x
     return op, ref
 
 
@@ -289,7 +299,14 @@ BUILD = {
                             {"prod": True, "dofdex": [0, 0, 0, 0]}]),
     "padder": (b_padder, [{"prod": False, "n": 2, "new": 4, "central": False}, {"prod": True, "n": 3, "new": 5, "central": False},
                           {"prod": False, "n": 4, "new": 7, "central": True}, {"prod": True, "n": 3, "new": 6, "central": True},
-                          {"prod": False, "n": 3, "new": 3, "central": True}]),
+                          {"prod": False, "n": 3, "new": 3, "central": True},
+                          # axes of length 1 and 2 (Nyquist index 0 / 1), odd and even targets, 2-D spaces
+                          {"prod": False, "n": 1, "new": 4, "central": True}, {"prod": True, "n": 1, "new": 3, "central": True},
+                          {"prod": False, "n": 1, "new": 2, "central": False}, {"prod": False, "n": 2, "new": 3, "central": True},
+                          {"prod": False, "n": 2, "new": 5, "central": True}, {"prod": False, "n": 5, "new": 6, "central": True},
+                          {"prod": False, "n": [1, 3], "new": [3, 4], "central": True},
+                          {"prod": False, "n": [2, 1], "new": [2, 4], "central": True},
+                          {"prod": True, "n": [2, 2], "new": [3, 2], "central": False}]),
     "slice": (b_slice, [{"new": (2, None), "center": False}, {"new": (2, 1), "center": True}, {"new": (3, 3), "center": True}]),
     # (a repeated index inside ONE key is excluded by the SplitOperator docstring)
     "split": (b_split, [{"dup": False}]),
